@@ -42,9 +42,15 @@ Proof.
   - destruct x; simpl; rewrite (IH k); auto; lia.
 Qed.
 
+(* ------------------------------------------------------------------ the memo only touches its own field *)
+Lemma awaiting_memo_rec um spec e s i : awaiting (memo_rec um spec e s i) = awaiting s.
+Proof. unfold memo_rec. destruct (um && spec && is_nr e); reflexivity. Qed.
+Lemma settled_memo_rec um spec e s i : settled (memo_rec um spec e s i) = settled s.
+Proof. unfold memo_rec. destruct (um && spec && is_nr e); reflexivity. Qed.
+
 (* ------------------------------------------------------------------ is_awaiting flags are restored *)
 Section Flags.
-  Variables (bound bound2 : nat) (isp : nat -> bool) (spec : bool) (G : graph).
+  Variables (um : bool) (bound bound2 : nat) (isp : nat -> bool) (spec : bool) (G : graph).
 
   Definition keeps_flags (st : state) (r : res) : Prop :=
     match r with RFuel => True | RVal _ st' | RRaise _ st' => awaiting st' = awaiting st end.
@@ -62,39 +68,79 @@ Section Flags.
     destruct (eval_deps rec ds (z :: acc) s'); auto; congruence.
   Qed.
 
-  Lemma wait_top_flags : forall fuel st seen p i, keeps_flags st (wait_top bound bound2 isp spec G fuel st seen p i).
+  Lemma wait_top_flags : forall fuel st seen p i, keeps_flags st (wait_top um bound bound2 isp spec G fuel st seen p i).
   Proof.
     induction fuel as [|f IH]; intros st seen p i; simpl; auto.
     destruct (nth_error G i) as [nd|]; simpl; auto.
     destruct (stop_check bound bound2 seen p i); simpl; auto.
+    destruct (memo_hit um spec st i); simpl; auto.
     destruct (is_await st i) eqn:Ea; simpl; auto.
     assert (R : forall s, awaiting s = awaiting (set_await st i true) -> awaiting (set_await s i false) = awaiting st).
     { intros s E. unfold set_await in *; simpl in *. rewrite E. apply set_nth_restore. exact Ea. }
     assert (K : forall v s, awaiting s = awaiting (set_await st i true) ->
               keeps_flags st match v with
                              | NVal z => RVal z (set_await s i false)
-                             | NFwd j => wait_top bound bound2 isp spec G f (set_await s i false) (i :: seen) (next_p isp p i j) j end).
+                             | NFwd j => wait_top um bound bound2 isp spec G f (set_await s i false) (i :: seen) (next_p isp p i j) j end).
     { intros [z|j] s E; simpl; [apply R; exact E|].
       pose proof (IH (set_await s i false) (i :: seen) (next_p isp p i j) j) as Hj.
-      destruct (wait_top bound bound2 isp spec G f (set_await s i false) (i :: seen) (next_p isp p i j) j); simpl in *; auto;
+      destruct (wait_top um bound bound2 isp spec G f (set_await s i false) (i :: seen) (next_p isp p i j) j); simpl in *; auto;
         rewrite Hj; apply R; exact E. }
     destruct nd as [v|deps g|].
     - apply K. reflexivity.
     - destruct (get_settled (set_await st i true) i) as [v|].
       + apply K. reflexivity.
-      + pose proof (eval_deps_flags (fun s d => wait_top bound bound2 isp spec G f s [] 0 d) deps [] (set_await st i true)
+      + pose proof (eval_deps_flags (fun s d => wait_top um bound bound2 isp spec G f s [] 0 d) deps [] (set_await st i true)
                       (fun s d => IH s [] 0 d)) as Hd.
         destruct (eval_deps _ deps [] (set_await st i true)) as [vals s2|e s2|]; simpl.
         * apply (K (g vals) (set_settled s2 i (g vals))). simpl. exact Hd.
-        * apply R. exact Hd.
+        * rewrite awaiting_memo_rec. apply R. exact Hd.
         * exact I.
-    - simpl. exact (R (set_await st i true) eq_refl).
+    - simpl. rewrite awaiting_memo_rec. exact (R (set_await st i true) eq_refl).
+  Qed.
+
+  (* the memo is only ever written on the way out of a NotReadyError: a call that returns a value left it alone *)
+  Definition keeps_memo (st : state) (r : res) : Prop :=
+    match r with RVal _ st' => memo st' = memo st | _ => True end.
+
+  Lemma eval_deps_memo rec deps : forall acc st,
+    (forall s d, keeps_memo s (rec s d)) ->
+    match eval_deps rec deps acc st with DDone _ st' => memo st' = memo st | _ => True end.
+  Proof.
+    induction deps as [|d ds IH]; intros acc st H; simpl; auto.
+    pose proof (H st d) as Hd. destruct (rec st d) as [z s'|e s'|]; simpl in Hd; auto.
+    specialize (IH (z :: acc) s' H).
+    destruct (eval_deps rec ds (z :: acc) s'); auto; congruence.
+  Qed.
+
+  Lemma wait_top_memo : forall fuel st seen p i, keeps_memo st (wait_top um bound bound2 isp spec G fuel st seen p i).
+  Proof.
+    induction fuel as [|f IH]; intros st seen p i; simpl; auto.
+    destruct (nth_error G i) as [nd|]; simpl; auto.
+    destruct (stop_check bound bound2 seen p i); simpl; auto.
+    destruct (memo_hit um spec st i); simpl; auto.
+    destruct (is_await st i); simpl; auto.
+    assert (K : forall v s, memo s = memo st ->
+              keeps_memo st match v with
+                            | NVal z => RVal z (set_await s i false)
+                            | NFwd j => wait_top um bound bound2 isp spec G f (set_await s i false) (i :: seen) (next_p isp p i j) j end).
+    { intros [z|j] s E; simpl; [exact E|].
+      pose proof (IH (set_await s i false) (i :: seen) (next_p isp p i j) j) as Hj.
+      destruct (wait_top um bound bound2 isp spec G f (set_await s i false) (i :: seen) (next_p isp p i j) j); simpl in *; auto.
+      rewrite Hj. exact E. }
+    destruct nd as [v|deps g|].
+    - apply K. reflexivity.
+    - destruct (get_settled (set_await st i true) i) as [v|].
+      + apply K. reflexivity.
+      + pose proof (eval_deps_memo (fun s d => wait_top um bound bound2 isp spec G f s [] 0 d) deps [] (set_await st i true)
+                      (fun s d => IH s [] 0 d)) as Hd.
+        destruct (eval_deps _ deps [] (set_await st i true)) as [vals s2|e s2|]; simpl; auto.
+    - simpl. exact I.
   Qed.
 End Flags.
 
 (* ------------------------------------------------------------------ termination *)
 Section Termination.
-  Variables (bound bound2 : nat) (isp : nat -> bool) (spec : bool) (G : graph).
+  Variables (um : bool) (bound bound2 : nat) (isp : nat -> bool) (spec : bool) (G : graph).
   Let B := bound + 2.
 
   Lemma eval_deps_nofuel rec deps : forall acc st,
@@ -111,11 +157,12 @@ Section Termination.
   Lemma wait_top_nofuel : forall fuel st seen p i,
     length (awaiting st) = length G ->
     fuel > nfree (awaiting st) * B + (bound + 1 - length seen) ->
-    wait_top bound bound2 isp spec G fuel st seen p i <> RFuel.
+    wait_top um bound bound2 isp spec G fuel st seen p i <> RFuel.
   Proof.
     induction fuel as [|f IH]; intros st seen p i L F; [lia|]. simpl.
     destruct (nth_error G i) as [nd|] eqn:En; [|discriminate].
     destruct (stop_check bound bound2 seen p i) eqn:Es; [discriminate|].
+    destruct (memo_hit um spec st i); [discriminate|].
     destruct (is_await st i) eqn:Ea; [discriminate|].
     unfold stop_check in Es. apply orb_false_iff in Es. destruct Es as [Es _]. apply orb_false_iff in Es. destruct Es as [Es _]. apply Nat.leb_gt in Es.
     assert (Li : i < length (awaiting st)).
@@ -128,16 +175,16 @@ Section Termination.
     assert (K : forall v s, awaiting s = awaiting st1 ->
               match v with
               | NVal z => RVal z (set_await s i false)
-              | NFwd j => wait_top bound bound2 isp spec G f (set_await s i false) (i :: seen) (next_p isp p i j) j end <> RFuel).
+              | NFwd j => wait_top um bound bound2 isp spec G f (set_await s i false) (i :: seen) (next_p isp p i j) j end <> RFuel).
     { intros [z|j] s E; [discriminate|]. apply IH.
       - rewrite (Back s E). exact L.
       - rewrite (Back s E). simpl. lia. }
     destruct nd as [v|deps g|].
     - apply K. reflexivity.
     - destruct (get_settled st1 i) as [v|]; [apply K; reflexivity|].
-      pose proof (eval_deps_flags (fun s d => wait_top bound bound2 isp spec G f s [] 0 d) deps [] st1
-                    (fun s d => wait_top_flags bound bound2 isp spec G f s [] 0 d)) as Hd.
-      assert (NF : eval_deps (fun s d => wait_top bound bound2 isp spec G f s [] 0 d) deps [] st1 <> DFuel).
+      pose proof (eval_deps_flags (fun s d => wait_top um bound bound2 isp spec G f s [] 0 d) deps [] st1
+                    (fun s d => wait_top_flags um bound bound2 isp spec G f s [] 0 d)) as Hd.
+      assert (NF : eval_deps (fun s d => wait_top um bound bound2 isp spec G f s [] 0 d) deps [] st1 <> DFuel).
       { apply eval_deps_nofuel.
         - intros s d. apply wait_top_flags.
         - intros s d E. apply IH.
@@ -153,7 +200,7 @@ Section Termination.
   Theorem wait_terminates_lemma fuel st i :
     length (awaiting st) = length G ->
     fuel >= fuel_bound bound G ->
-    wait bound bound2 isp spec G fuel st i <> RFuel.
+    wait um bound bound2 isp spec G fuel st i <> RFuel.
   Proof.
     intros L F. unfold wait. apply wait_top_nofuel; [exact L|].
     unfold fuel_bound in F. simpl. pose proof (nfree_le (awaiting st)) as N. rewrite L in N.
@@ -217,13 +264,16 @@ Section Meaning.
   Lemma settled_sound_await st k b : settled_sound st -> settled_sound (set_await st k b).
   Proof. intros H; exact H. Qed.
 
+  Lemma settled_sound_memo_rec um spec e st k : settled_sound st -> settled_sound (memo_rec um spec e st k).
+  Proof. intros H j v Hj. apply H. unfold get_settled in *. rewrite settled_memo_rec in Hj. exact Hj. Qed.
+
   Lemma settled_sound_init : settled_sound (init_state G).
   Proof.
     intros k v H. unfold get_settled, init_state in H. simpl in H. exfalso.
     revert k H. generalize G as l. induction l as [|x xs IH]; intros [|k] H; simpl in H; try discriminate. eauto.
   Qed.
 
-  Variables (bound bound2 : nat) (isp : nat -> bool) (spec : bool).
+  Variables (um : bool) (bound bound2 : nat) (isp : nat -> bool) (spec : bool).
 
   Definition sound_res (i : nat) (r : res) : Prop :=
     match r with
@@ -251,21 +301,22 @@ Section Meaning.
   Qed.
 
   Lemma wait_top_sound : forall fuel st seen p i,
-    settled_sound st -> sound_res i (wait_top bound bound2 isp spec G fuel st seen p i).
+    settled_sound st -> sound_res i (wait_top um bound bound2 isp spec G fuel st seen p i).
   Proof.
     induction fuel as [|f IH]; intros st seen p i S; simpl; auto.
     destruct (nth_error G i) as [nd|] eqn:En; simpl; auto.
     destruct (stop_check bound bound2 seen p i); simpl; auto.
+    destruct (memo_hit um spec st i); simpl; auto.
     destruct (is_await st i); simpl; auto.
     assert (K : forall v s, settled_sound s ->
               (forall z, v = NVal z -> value_of i z) ->
               (forall j z, v = NFwd j -> value_of j z -> value_of i z) ->
               sound_res i match v with
                           | NVal z => RVal z (set_await s i false)
-                          | NFwd j => wait_top bound bound2 isp spec G f (set_await s i false) (i :: seen) (next_p isp p i j) j end).
+                          | NFwd j => wait_top um bound bound2 isp spec G f (set_await s i false) (i :: seen) (next_p isp p i j) j end).
     { intros [z|j] s Ss Hz Hj; simpl; [split; auto|].
       pose proof (IH (set_await s i false) (i :: seen) (next_p isp p i j) j Ss) as R.
-      destruct (wait_top bound bound2 isp spec G f (set_await s i false) (i :: seen) (next_p isp p i j) j); simpl in *; auto.
+      destruct (wait_top um bound bound2 isp spec G f (set_await s i false) (i :: seen) (next_p isp p i j) j); simpl in *; auto.
       destruct R as [R1 R2]. split; eauto. }
     destruct nd as [v|deps g|].
     - apply K; [exact S| |].
@@ -277,9 +328,10 @@ Section Meaning.
         apply K; [exact S| |].
         * intros z E; subst. eapply VFn; eauto.
         * intros j z E Hj; subst. eapply VFnF; eauto.
-      + pose proof (eval_deps_sound (fun s d => wait_top bound bound2 isp spec G f s [] 0 d) deps [] [] (set_await st i true)
+      + pose proof (eval_deps_sound (fun s d => wait_top um bound bound2 isp spec G f s [] 0 d) deps [] [] (set_await st i true)
                       (fun s d Ss => IH s [] 0 d Ss) S VNil) as Hd.
-        destruct (eval_deps _ deps [] (set_await st i true)) as [vals s2|e s2|]; simpl; auto.
+        destruct (eval_deps _ deps [] (set_await st i true)) as [vals s2|e s2|]; simpl; auto;
+          [|apply settled_sound_memo_rec; exact Hd].
         simpl in Hd. destruct Hd as [Hv Hs].
         apply K.
         * intros k v Hk. unfold get_settled, set_settled in Hk. simpl in Hk.
@@ -288,7 +340,7 @@ Section Meaning.
           -- apply Hs. exact Hk.
         * intros z E. eapply VFn; eauto.
         * intros j z E Hj. eapply VFnF; eauto.
-    - simpl. exact S.
+    - simpl. apply settled_sound_memo_rec. exact S.
   Qed.
 End Meaning.
 
@@ -349,7 +401,7 @@ Section Cycle.
   Definition from (o h : nat) : Prop := h = o \/ reach o h.
   Definition long_forward (o n : nat) : Prop := exists h seen j, from o h /\ fchain_from h seen j /\ n <= length seen.
 
-  Variables (bound bound2 : nat) (isp : nat -> bool) (spec : bool).
+  Variables (um : bool) (bound bound2 : nat) (isp : nat -> bool) (spec : bool).
 
   (* number of steps "a polynomial yields a polynomial" along the chain seen -> i (what polynomial_steps counts) *)
   Fixpoint pcount (seen : list nat) (i : nat) : nat :=
@@ -404,7 +456,7 @@ Section Cycle.
   Qed.
 
   Lemma wait_top_cycle : forall fuel st seen p h i,
-    cyc_inv st seen p h i -> cyc_res h i (wait_top bound bound2 isp spec G fuel st seen p i).
+    cyc_inv st seen p h i -> cyc_res h i (wait_top um bound bound2 isp spec G fuel st seen p i).
   Proof.
     induction fuel as [|f IH]; intros st seen p h i (Ss & Ia & Is & If & Ip); simpl; auto.
     destruct (nth_error G i) as [nd|] eqn:En; simpl; auto.
@@ -414,6 +466,7 @@ Section Cycle.
       - right. right. exists h, seen, i. split; [left; reflexivity|split; [exact If|apply Nat.leb_le in Es; subst p; exact Es]].
       - left. apply existsb_exists in Es. destruct Es as [k [Hk Ek]]. apply Nat.eqb_eq in Ek. subst k.
         exists i. split; auto. }
+    destruct (memo_hit um spec st i); simpl; [exact I|].
     destruct (is_await st i) eqn:Ea; simpl.
     { left. exists i. split; auto. }
     (* continuing with a yielded object j *)
@@ -421,14 +474,14 @@ Section Cycle.
               (forall j, v = NFwd j -> fedge i j) ->
               cyc_res h i match v with
                         | NVal z => RVal z (set_await s i false)
-                        | NFwd j => wait_top bound bound2 isp spec G f (set_await s i false) (i :: seen) (next_p isp p i j) j end).
+                        | NFwd j => wait_top um bound bound2 isp spec G f (set_await s i false) (i :: seen) (next_p isp p i j) j end).
     { intros [z|j] s E Sss Hf; simpl; auto.
       assert (Ef : fedge i j) by (apply Hf; reflexivity).
       assert (Ee : edge i j) by (left; exact Ef).
       assert (Aw : awaiting (set_await s i false) = awaiting st).
       { unfold set_await in *; simpl in *. rewrite E. apply set_nth_restore. exact Ea. }
       pose proof (IH (set_await s i false) (i :: seen) (next_p isp p i j) h j) as R.
-      destruct (wait_top bound bound2 isp spec G f (set_await s i false) (i :: seen) (next_p isp p i j) j) as [z s'|[| |] s'|]; simpl in R |- *; auto.
+      destruct (wait_top um bound bound2 isp spec G f (set_await s i false) (i :: seen) (next_p isp p i j) j) as [z s'|[| |] s'|]; simpl in R |- *; auto.
       destruct R as [R|R]; auto.
       - split; [exact Sss|]. split; [|split].
         + intros k Hk. unfold is_await in Hk. rewrite Aw in Hk. eapply reachS; [apply Ia; exact Hk|exact Ee].
@@ -442,10 +495,10 @@ Section Cycle.
       + apply K; auto. intros j E. subst v.
         destruct (Ss i (NFwd j) Eg) as (deps' & g' & vals & E1 & E2 & E3).
         unfold fedge. rewrite En. assert (g' = g) by congruence. subst g'. eauto.
-      + pose proof (eval_deps_flags (fun s d => wait_top bound bound2 isp spec G f s [] 0 d) deps [] (set_await st i true)
-                      (fun s d => wait_top_flags bound bound2 isp spec G f s [] 0 d)) as Hd.
-        pose proof (eval_deps_sound G (fun s d => wait_top bound bound2 isp spec G f s [] 0 d) deps [] [] (set_await st i true)
-                      (fun s d Sx => wait_top_sound G bound bound2 isp spec f s [] 0 d Sx) Ss (VNil G)) as Hs.
+      + pose proof (eval_deps_flags (fun s d => wait_top um bound bound2 isp spec G f s [] 0 d) deps [] (set_await st i true)
+                      (fun s d => wait_top_flags um bound bound2 isp spec G f s [] 0 d)) as Hd.
+        pose proof (eval_deps_sound G (fun s d => wait_top um bound bound2 isp spec G f s [] 0 d) deps [] [] (set_await st i true)
+                      (fun s d Sx => wait_top_sound G um bound bound2 isp spec f s [] 0 d Sx) Ss (VNil G)) as Hs.
         destruct (eval_deps _ deps [] (set_await st i true)) as [vals s2|e s2|] eqn:Ed; simpl; auto.
         * destruct Hs as [Hv Hs2]. apply K; auto.
           -- intros k v Hk. unfold get_settled, set_settled in Hk. simpl in Hk.
@@ -455,8 +508,8 @@ Section Cycle.
           -- intros j E. unfold fedge. rewrite En. eauto.
         * destruct e; auto.
           destruct (eval_deps_raise _ deps [] (set_await st i true) ECycle s2
-                      (fun s d => wait_top_flags bound bound2 isp spec G f s [] 0 d)
-                      (fun s d Sx => wait_top_sound G bound bound2 isp spec f s [] 0 d Sx) Ss Ed) as (d & s & Hin & Haw & Hss & Hr).
+                      (fun s d => wait_top_flags um bound bound2 isp spec G f s [] 0 d)
+                      (fun s d Sx => wait_top_sound G um bound bound2 isp spec f s [] 0 d Sx) Ss Ed) as (d & s & Hin & Haw & Hss & Hr).
           assert (Ee : edge i d) by (right; unfold dedge; rewrite En; exact Hin).
           assert (Rhd : reach h d).
           { destruct (fchain_reach h seen i If) as [->|Rh]; [apply reach1; exact Ee|eapply reachS; [exact Rh|exact Ee]]. }
@@ -473,7 +526,7 @@ Section Cycle.
 
   (* from a clean start: no flag set, nothing seen *)
   Theorem cycle_sound fuel i st' :
-    wait bound bound2 isp spec G fuel (init_state G) i = RRaise ECycle st' ->
+    wait um bound bound2 isp spec G fuel (init_state G) i = RRaise ECycle st' ->
     reaches_cycle i \/ long_forward i bound \/ long_poly i bound2.
   Proof.
     intros H. pose proof (wait_top_cycle fuel (init_state G) [] 0 i i) as R.
@@ -486,7 +539,7 @@ End Cycle.
 
 (* ------------------------------------------------------------------ acyclic graphs get a value *)
 Section Acyclic.
-  Variables (G : graph) (bound bound2 : nat) (isp : nat -> bool) (spec : bool).
+  Variables (G : graph) (um : bool) (bound bound2 : nat) (isp : nat -> bool) (spec : bool).
 
   (* every reference stays inside the graph and every Promise has been settled *)
   Definition closed : Prop :=
@@ -517,30 +570,32 @@ Section Acyclic.
     settled_sound G st /\ i < length G /\
     (forall k, is_await st k = true -> rank i < rank k) /\
     (forall k, In k seen -> rank i < rank k) /\
-    length seen + flen i < bound /\ p + plen i < bound2.
+    length seen + flen i < bound /\ p + plen i < bound2 /\
+    (forall k, is_memo st k = false).
 
   Definition no_raise (r : res) : Prop := match r with RRaise _ _ => False | _ => True end.
 
   Lemma eval_deps_noraise rec deps : forall acc st,
     (forall s d, keeps_flags s (rec s d)) ->
     (forall s d, settled_sound G s -> sound_res G d (rec s d)) ->
-    (forall s d, In d deps -> awaiting s = awaiting st -> settled_sound G s -> no_raise (rec s d)) ->
+    (forall s d, keeps_memo s (rec s d)) ->
+    (forall s d, In d deps -> awaiting s = awaiting st -> memo s = memo st -> settled_sound G s -> no_raise (rec s d)) ->
     settled_sound G st ->
     match eval_deps rec deps acc st with DRaise _ _ => False | _ => True end.
   Proof.
-    induction deps as [|d ds IH]; intros acc st K S N Ss; simpl; auto.
-    pose proof (K st d) as Kd. pose proof (S st d Ss) as Sd.
-    pose proof (N st d (or_introl eq_refl) eq_refl Ss) as Nd.
+    induction deps as [|d ds IH]; intros acc st K S M N Ss; simpl; auto.
+    pose proof (K st d) as Kd. pose proof (S st d Ss) as Sd. pose proof (M st d) as Md.
+    pose proof (N st d (or_introl eq_refl) eq_refl eq_refl Ss) as Nd.
     destruct (rec st d) as [z s1|e s1|]; simpl in *; auto.
     destruct Sd as [_ Ss1]. apply IH; auto.
-    intros s d' I1 I2 I3. apply N; auto. congruence.
+    intros s d' I1 I2 I3 I4. apply N; auto; congruence.
   Qed.
 
   Lemma wait_top_noraise : forall fuel st seen p i,
-    acy_inv st seen p i -> no_raise (wait_top bound bound2 isp spec G fuel st seen p i).
+    acy_inv st seen p i -> no_raise (wait_top um bound bound2 isp spec G fuel st seen p i).
   Proof.
     destruct Hranked as (Hr & Hf & Hb & Hp1 & Hp2 & Hpb).
-    induction fuel as [|f IH]; intros st seen p i (Ss & Li & Ia & Is & Il & Ipl); simpl; auto.
+    induction fuel as [|f IH]; intros st seen p i (Ss & Li & Ia & Is & Il & Ipl & Im); simpl; auto.
     destruct (nth_error G i) as [nd|] eqn:En; [|apply nth_error_None in En; lia].
     destruct (stop_check bound bound2 seen p i) eqn:Es; simpl.
     { unfold stop_check in Es. apply orb_true_iff in Es. destruct Es as [Es|Es]; [apply orb_true_iff in Es; destruct Es as [Es|Es]|].
@@ -548,19 +603,22 @@ Section Acyclic.
       - apply Nat.leb_le in Es. lia.
       - apply existsb_exists in Es. destruct Es as [k [Hk Ek]]. apply Nat.eqb_eq in Ek. subst k.
         specialize (Is i Hk). lia. }
+    assert (Mh : memo_hit um spec st i = false) by (unfold memo_hit; rewrite (Im i); apply andb_false_r).
+    rewrite Mh.
     destruct (is_await st i) eqn:Ea; simpl.
     { specialize (Ia i Ea). lia. }
-    assert (K : forall v s, awaiting s = awaiting (set_await st i true) -> settled_sound G s ->
+    assert (K : forall v s, awaiting s = awaiting (set_await st i true) -> memo s = memo st -> settled_sound G s ->
               (forall j, v = NFwd j -> fedge G i j) ->
               no_raise match v with
                        | NVal z => RVal z (set_await s i false)
-                       | NFwd j => wait_top bound bound2 isp spec G f (set_await s i false) (i :: seen) (next_p isp p i j) j end).
-    { intros [z|j] s E Sss Hfe; simpl; auto.
+                       | NFwd j => wait_top um bound bound2 isp spec G f (set_await s i false) (i :: seen) (next_p isp p i j) j end).
+    { intros [z|j] s E Em Sss Hfe; simpl; auto.
       assert (Ef : fedge G i j) by (apply Hfe; reflexivity).
       assert (Ee : edge G i j) by (left; exact Ef).
       assert (Aw : awaiting (set_await s i false) = awaiting st).
       { unfold set_await in *; simpl in *. rewrite E. apply set_nth_restore. exact Ea. }
-      apply IH. split; [exact Sss|]. split; [|split; [|split; [|split]]].
+      apply IH. split; [exact Sss|]. split; [|split; [|split; [|split; [|split]]]];
+        [| | | | |intros k; unfold is_memo; simpl; rewrite Em; apply Im].
       - pose proof (Hclosed i nd En) as C. unfold fedge in Ef. rewrite En in Ef.
         destruct nd as [[z|k]|deps g|]; try contradiction.
         + subst. exact C.
@@ -576,13 +634,16 @@ Section Acyclic.
       + apply K; auto. intros j E. subst.
         destruct (Ss i (NFwd j) Eg) as (deps' & g' & vals & E1 & E2 & E3).
         unfold fedge. rewrite En. assert (g' = g) by congruence. subst. eauto.
-      + pose proof (eval_deps_flags (fun s d => wait_top bound bound2 isp spec G f s [] 0 d) deps [] (set_await st i true)
-                      (fun s d => wait_top_flags bound bound2 isp spec G f s [] 0 d)) as Hd.
-        pose proof (eval_deps_sound G (fun s d => wait_top bound bound2 isp spec G f s [] 0 d) deps [] [] (set_await st i true)
-                      (fun s d Sx => wait_top_sound G bound bound2 isp spec f s [] 0 d Sx) Ss (VNil G)) as Hs.
-        pose proof (eval_deps_noraise (fun s d => wait_top bound bound2 isp spec G f s [] 0 d) deps [] (set_await st i true)
-                      (fun s d => wait_top_flags bound bound2 isp spec G f s [] 0 d)
-                      (fun s d Sx => wait_top_sound G bound bound2 isp spec f s [] 0 d Sx)) as Hn.
+      + pose proof (eval_deps_flags (fun s d => wait_top um bound bound2 isp spec G f s [] 0 d) deps [] (set_await st i true)
+                      (fun s d => wait_top_flags um bound bound2 isp spec G f s [] 0 d)) as Hd.
+        pose proof (eval_deps_sound G (fun s d => wait_top um bound bound2 isp spec G f s [] 0 d) deps [] [] (set_await st i true)
+                      (fun s d Sx => wait_top_sound G um bound bound2 isp spec f s [] 0 d Sx) Ss (VNil G)) as Hs.
+        pose proof (eval_deps_noraise (fun s d => wait_top um bound bound2 isp spec G f s [] 0 d) deps [] (set_await st i true)
+                      (fun s d => wait_top_flags um bound bound2 isp spec G f s [] 0 d)
+                      (fun s d Sx => wait_top_sound G um bound bound2 isp spec f s [] 0 d Sx)
+                      (fun s d => wait_top_memo um bound bound2 isp spec G f s [] 0 d)) as Hn.
+        pose proof (eval_deps_memo (fun s d => wait_top um bound bound2 isp spec G f s [] 0 d) deps [] (set_await st i true)
+                      (fun s d => wait_top_memo um bound bound2 isp spec G f s [] 0 d)) as Hm.
         destruct (eval_deps _ deps [] (set_await st i true)) as [vals s2|e s2|] eqn:Ed; simpl; auto.
         * destruct Hs as [Hv Hs2]. apply K; auto.
           -- intros k v Hk. unfold get_settled, set_settled in Hk. simpl in Hk.
@@ -591,9 +652,10 @@ Section Acyclic.
              ++ apply Hs2. exact Hk.
           -- intros j E. unfold fedge. rewrite En. eauto.
         * apply Hn; [|exact Ss].
-          intros s d Hin Haw Hss. apply IH.
+          intros s d Hin Haw Hme Hss. apply IH.
           assert (Ee : edge G i d) by (right; unfold dedge; rewrite En; exact Hin).
-          split; [exact Hss|]. split; [|split; [|split; [|split]]].
+          split; [exact Hss|]. split; [|split; [|split; [|split; [|split]]]];
+            [| | | | |intros k; unfold is_memo; rewrite Hme; simpl; apply Im].
           -- pose proof (Hclosed i _ En) as [C _]. apply C. exact Hin.
           -- intros k Hk. unfold is_await in Hk. rewrite Haw in Hk. simpl in Hk.
              specialize (Hr i d Ee).
@@ -607,21 +669,23 @@ Section Acyclic.
 
   Theorem acyclic_value fuel i :
     i < length G -> fuel >= fuel_bound bound G ->
-    exists z st', wait bound bound2 isp spec G fuel (init_state G) i = RVal z st' /\ value_of G i z /\
+    exists z st', wait um bound bound2 isp spec G fuel (init_state G) i = RVal z st' /\ value_of G i z /\
                   awaiting st' = awaiting (init_state G).
   Proof.
     intros Li F.
     assert (Inv : acy_inv (init_state G) [] 0 i).
     { destruct Hranked as (Hr & Hf & Hb & Hp1 & Hp2 & Hpb).
-      split; [apply settled_sound_init|]. split; [exact Li|]. split; [|split; [intros k []|split; [simpl; apply Hb|simpl; apply Hpb]]].
-      intros k Hk. exfalso. unfold is_await, init_state in Hk. simpl in Hk.
-      revert k Hk. generalize G as l. induction l as [|x xs IHl]; intros [|k] Hk; simpl in Hk; try discriminate. eauto. }
+      assert (Z : forall (l : graph) k, nth k (map (fun _ => false) l) false = false).
+      { induction l as [|x xs IHl]; intros [|k]; simpl; auto. }
+      split; [apply settled_sound_init|]. split; [exact Li|]. split; [|split; [intros k []|split; [simpl; apply Hb|split; [simpl; apply Hpb|]]]].
+      - intros k Hk. unfold is_await, init_state in Hk. simpl in Hk. rewrite Z in Hk. discriminate.
+      - intros k. unfold is_memo, init_state. simpl. apply Z. }
     pose proof (wait_top_noraise fuel (init_state G) [] 0 i Inv) as N.
-    pose proof (wait_terminates_lemma bound bound2 isp spec G fuel (init_state G) i) as T.
-    pose proof (wait_top_sound G bound bound2 isp spec fuel (init_state G) [] 0 i (settled_sound_init G)) as S.
-    pose proof (wait_top_flags bound bound2 isp spec G fuel (init_state G) [] 0 i) as Fl.
+    pose proof (wait_terminates_lemma um bound bound2 isp spec G fuel (init_state G) i) as T.
+    pose proof (wait_top_sound G um bound bound2 isp spec fuel (init_state G) [] 0 i (settled_sound_init G)) as S.
+    pose proof (wait_top_flags um bound bound2 isp spec G fuel (init_state G) [] 0 i) as Fl.
     unfold wait in *.
-    destruct (wait_top bound bound2 isp spec G fuel (init_state G) [] 0 i) as [z s'|e s'|]; simpl in *.
+    destruct (wait_top um bound bound2 isp spec G fuel (init_state G) [] 0 i) as [z s'|e s'|]; simpl in *.
     - exists z, s'. destruct S as [S1 S2]. auto.
     - contradiction.
     - exfalso. apply T; auto. unfold init_state; simpl. rewrite !map_length. reflexivity.
@@ -635,28 +699,29 @@ Lemma try_wait_flags bound bound2 isp G fuel st i :
   | TFuel => True
   end.
 Proof.
-  unfold try_wait, wait. pose proof (wait_top_flags bound bound2 isp true G fuel st [] 0 i) as H.
-  destruct (wait_top bound bound2 isp true G fuel st [] 0 i) as [z s|[| |] s|]; simpl in *; auto.
+  unfold try_wait, wait. pose proof (wait_top_flags true bound bound2 isp true G fuel (clear_memo st) [] 0 i) as H.
+  destruct (wait_top true bound bound2 isp true G fuel (clear_memo st) [] 0 i) as [z s|[| |] s|]; simpl in *; auto.
 Qed.
 
 (* while speculating, an unsettled Promise never produces the fatal Exception: only a dangling reference could *)
-Lemma spec_no_crash_closed bound bound2 isp G : forall fuel st seen p i st',
+Lemma spec_no_crash_closed um bound bound2 isp G : forall fuel st seen p i st',
   (forall k nd, nth_error G k = Some nd ->
      match nd with NConst (NFwd j) => j < length G
                  | NFn deps g => (forall d, In d deps -> d < length G) /\ (forall vals j, g vals = NFwd j -> j < length G)
                  | _ => True end) ->
   settled_sound G st -> i < length G ->
-  wait_top bound bound2 isp true G fuel st seen p i <> RRaise ECrash st'.
+  wait_top um bound bound2 isp true G fuel st seen p i <> RRaise ECrash st'.
 Proof.
   intros fuel st seen p i st' C. revert st seen p i st'.
   induction fuel as [|f IH]; intros st seen p i st' Ss Li; simpl; [discriminate|].
   destruct (nth_error G i) as [nd|] eqn:En; [|apply nth_error_None in En; lia].
   destruct (stop_check bound bound2 seen p i); [discriminate|].
+  destruct (memo_hit um true st i); [discriminate|].
   destruct (is_await st i); [discriminate|].
   assert (K : forall v s, settled_sound G s -> (forall j, v = NFwd j -> j < length G) ->
             match v with
             | NVal z => RVal z (set_await s i false)
-            | NFwd j => wait_top bound bound2 isp true G f (set_await s i false) (i :: seen) (next_p isp p i j) j end <> RRaise ECrash st').
+            | NFwd j => wait_top um bound bound2 isp true G f (set_await s i false) (i :: seen) (next_p isp p i j) j end <> RRaise ECrash st').
   { intros [z|j] s Sss Hj; [discriminate|]. apply IH; auto. }
   pose proof (C i nd En) as Ci.
   destruct nd as [v|deps g|].
@@ -665,8 +730,8 @@ Proof.
     + apply K; auto. intros j E; subst.
       destruct (Ss i (NFwd j) Eg) as (deps' & g' & vals & E1 & E2 & E3).
       assert (g' = g) by congruence. subst. destruct Ci as [_ Ci]. eapply Ci; eauto.
-    + pose proof (eval_deps_sound G (fun s d => wait_top bound bound2 isp true G f s [] 0 d) deps [] [] (set_await st i true)
-                    (fun s d Sx => wait_top_sound G bound bound2 isp true f s [] 0 d Sx) Ss (VNil G)) as Hs.
+    + pose proof (eval_deps_sound G (fun s d => wait_top um bound bound2 isp true G f s [] 0 d) deps [] [] (set_await st i true)
+                    (fun s d Sx => wait_top_sound G um bound bound2 isp true f s [] 0 d Sx) Ss (VNil G)) as Hs.
       destruct (eval_deps _ deps [] (set_await st i true)) as [vals s2|e s2|] eqn:Ed.
       * destruct Hs as [Hv Hs2]. apply K.
         -- intros k v Hk. unfold get_settled, set_settled in Hk. simpl in Hk.
@@ -676,8 +741,8 @@ Proof.
         -- intros j E. destruct Ci as [_ Ci]. eapply Ci; eauto.
       * destruct e; try discriminate.
         destruct (eval_deps_raise G _ deps [] (set_await st i true) ECrash s2
-                    (fun s d => wait_top_flags bound bound2 isp true G f s [] 0 d)
-                    (fun s d Sx => wait_top_sound G bound bound2 isp true f s [] 0 d Sx) Ss Ed) as (d & s & Hin & Haw & Hss & Hr).
+                    (fun s d => wait_top_flags um bound bound2 isp true G f s [] 0 d)
+                    (fun s d Sx => wait_top_sound G um bound bound2 isp true f s [] 0 d Sx) Ss Ed) as (d & s & Hin & Haw & Hss & Hr).
         exfalso. eapply IH; [exact Hss| |exact Hr]. destruct Ci as [Ci _]. apply Ci. exact Hin.
       * discriminate.
   - discriminate.
